@@ -59,18 +59,6 @@ def build_all(force=False):
     return ok, log + log2 + "\nbuild %.1fs" % (time.time() - t)
 
 
-if __name__ == "__main__":
-    if "--setup" in sys.argv:
-        okr, logr = regenerate()
-        print(logr[-500:])
-        # build every theorem file once so that the per-property checks only re-check what changed
-        rc, out = sh("coq_makefile -f _CoqProject -o Makefile && timeout 3000 make -j16 2>&1 | tail -5", cwd=COQ, timeout=3100)
-        print(out[-800:])
-    ok, log = build_all("--force" in sys.argv or "--setup" in sys.argv)
-    print(log[-3000:])
-    sys.exit(0 if ok else 1)
-
-
 def regenerate():
     """Regenerate coq/Gen/*.v from the current /repo working tree (translator)."""
     try:
@@ -81,3 +69,15 @@ def regenerate():
         return py2coq.regenerate_all()
     except Exception as e:  # fail closed: a kernel the translator cannot read breaks the proof stage
         return False, "translator error: %r" % (e,)
+
+
+if __name__ == "__main__":
+    if "--setup" in sys.argv:
+        okr, logr = regenerate()
+        print(logr[-500:])
+        # build every theorem file once so that the per-property checks only re-check what changed
+        rc, out = sh("coq_makefile -f _CoqProject -o Makefile && timeout 3000 make -j16 2>&1 | tail -5", cwd=COQ, timeout=3100)
+        print(out[-800:])
+    ok, log = build_all("--force" in sys.argv or "--setup" in sys.argv)
+    print(log[-3000:])
+    sys.exit(0 if ok else 1)
